@@ -50,8 +50,10 @@ def parse_division(boundary, body, cuts, want_states=True, empties=()):
     """empties: edges (0 = before the first byte) at which an empty buffer is handed to the parser as well."""
     from ombott.request_pkg.multipart import MultipartMarkup
     mk = MultipartMarkup(boundary)
-    m = mk._markuper
-    he = m.headers_eater
+    # the carried state is read from outside for the reach measure only; a parser that keeps it elsewhere or under
+    # other names is measured by its cut positions instead (never an alarm, never a harness error)
+    m = getattr(mk, '_markuper', None)
+    he = getattr(m, 'headers_eater', None)
     states = []
     prev = 0
     carried = 0
@@ -67,14 +69,19 @@ def parse_division(boundary, body, cuts, want_states=True, empties=()):
         if c in empties:
             mk.parse(b'')
         if want_states and c < len(body):
-            st = (getattr(m.cur_meth, '__name__', '?'), min(m.trest_len or 0, 9),
-                  getattr(he.eat_meth, '__name__', '?'),
-                  len(he.headers_end_expected or b''), bool(m.stopped), bool(he.stopped),
-                  mk.error is not None)
+            try:
+                st = (getattr(m.cur_meth, '__name__', '?'), min(m.trest_len or 0, 9),
+                      getattr(he.eat_meth, '__name__', '?'),
+                      len(he.headers_end_expected or b''), bool(m.stopped), bool(he.stopped),
+                      mk.error is not None)
+                inside = (m.trest is not None or he.headers_end_expected is not None
+                          or st[2] not in ('_eat_first_crlf_or_last_hyphens', '?')
+                          or st[0] == '_eat_start_boundary' or m.stopped or he.stopped)
+            except Exception:       # noqa - internals not in the expected shape
+                st = ('?', 0, '?', 0, False, False, mk.error is not None)
+                inside = True
             states.append(st)
-            if mk.error is None and (m.trest is not None or he.headers_end_expected is not None
-                                     or st[2] not in ('_eat_first_crlf_or_last_hyphens', '?')
-                                     or st[0] == '_eat_start_boundary' or m.stopped or he.stopped):
+            if mk.error is None and inside:
                 carried += 1
     markups = [[n, [s, e]] for n, (s, e) in mk.markups]
     err = type(mk.error).__name__ if mk.error is not None else None
